@@ -27,11 +27,21 @@ WORK = ['dump C', 'print C 0',
         'dump C', 'parse_buf C ' + hx(b'm { n third { } }\nkv { k = v }\none { n w { } }\nsl += {more}\nkd { level = 5 free = x }\nkd { other = y }\n'), 'dump C', 'print C 0',
         'setstr C %s %s 0' % (hx(b's'), hx(b'changed')), 'addtsec C %s %s' % (hx(b't'), hx(b'api')), 'setint C %s 9 0' % hx(b't=api|a'),
         'addlist C %s int 7' % hx(b't=api|l'), 'setcomment C %s %s' % (hx(b'i'), hx(b'note')), 'getopt C ' + hx(b'm=2|n=third|z'),
-        'rmsec C ' + hx(b'm=0'), 'parse_buf C ' + hx(b'm { n again { zl = {} } }\n'), 'dump C', 'print C 2']
+        'rmsec C ' + hx(b'm=0'), 'parse_buf C ' + hx(b'm { n again { zl = {} } }\n'), 'dump C',
+        # a plain section removed and created again by a later text still gets its declared sub-options
+        'rmsec C ' + hx(b'one'), 'parse_buf C ' + hx(b'one { a = 5 n again { } }\n'), 'getopt C ' + hx(b'one|s'),
+        # a free-form section instance exists: unknown keys elsewhere are still errors
+        'parse_buf C ' + hx(b'nosuchkey = 1\n') + ' !rc=1', 'parse_buf C ' + hx(b'm { nosuch = 2 }\n') + ' !rc=1', 'parse_buf C ' + hx(b'one { nosuch = 3 }\n') + ' !rc=1',
+        'dump C', 'print C 2']
+
+
+WORK_EXPECT = {x.split(' !')[0].split(' ', 2)[2]: x.split(' !')[1] for x in WORK if ' !' in x}
 
 
 def ctx(cmds, c):
-    return [re.sub(r'^(\w+) C\b', r'\1 %d' % c, x) for x in cmds]
+    """commands for context c; a trailing ` !rc=N` (an expectation checked by the oracle) is kept out of the command"""
+    return [re.sub(r'^(\w+) C\b', r'\1 %d' % c, x.split(' !')[0]) for x in cmds]
+
 
 
 def generate(rng, tier):
@@ -128,6 +138,10 @@ def oracle(scn, il):
         if marks != 1:
             return [('print-callback-spread', '%s: a print callback installed by path shows %d times in the print-out (once expected: first instance only):\n%s' % (
                 scn.id, marks, text.decode('latin-1')[:900]))]
+    for i, l in enumerate(scn.lines):
+        want = WORK_EXPECT.get(l.split(' ', 2)[2] if l.count(' ') >= 2 else '')
+        if want and i < len(il) - 1 and (want + ' ') not in il[i]:
+            return [('expected-' + want, '%s: `%s` answered %s (expected %s)' % (scn.id, l[:70], il[i][:100], want))]
     # every section instance, whenever created, has the declared sub-options (name, kind, default) of its template
     out = []
     for l in reversed(il[:-1]):
